@@ -581,6 +581,8 @@ type Family struct {
 	StartSrc string
 	nextId   int
 	maxSize  int
+	// Ops, when set, restricts the mutators C05 draws from for this family
+	Ops []opKind
 }
 
 func lastIds(g *genetics.Genome) (int64, int) {
@@ -653,7 +655,12 @@ func (f *Family) applyMutation(op opKind, g *genetics.Genome, r *rand.Rand) (boo
 	case opConnectSensors:
 		return g.VerifMutateConnectSensors(f.Pop, f.Opts)
 	case opLinkWeights:
-		return g.VerifMutateLinkWeights(0.1+r.Float64()*3, r.Float64(), r.Intn(4) == 0)
+		pw := r.Float64()
+		power := 0.1 + pw*3
+		if pw > 0.94 {
+			power = 200 + pw*2000 // a strong mutation power: weights far beyond the usual range
+		}
+		return g.VerifMutateLinkWeights(power, r.Float64(), r.Intn(4) == 0)
 	case opRandomTrait:
 		return g.VerifMutateRandomTrait(f.Opts)
 	case opLinkTrait:
